@@ -42,3 +42,21 @@ def swallow_loop(limit=120.0):
         except Exception:
             pass
     return 'limit'
+
+
+def _mark(marker):
+    if marker:
+        with open(marker, 'w'):
+            pass
+
+
+def coop_marked(marker=None, limit=120.0):
+    """Cooperative target that announces (marker file) that it is running."""
+    _mark(marker)
+    return coop_loop(limit)
+
+
+def swallow_marked(marker=None, limit=120.0):
+    """Swallowing target that announces (marker file) that it is running."""
+    _mark(marker)
+    return swallow_loop(limit)
